@@ -28,7 +28,11 @@ StView == st
 Contents == {"c1", "c2"}
 
 Acts(S) ==
-  LET newgrp == {[a |-> "NewGrp", s |-> s, t |-> t, mode |-> <<"-">>, chan |-> FALSE] : s \in {SessOrder[1]}, t \in {x \in GrpTopics : ~S.topics[x].exists}}
+  LET newgrp == {[a |-> "NewGrp", s |-> s, t |-> t, mode |-> <<"-">>, chan |-> ("Chan" \in Kinds)] : s \in {SessOrder[1]}, t \in {x \in GrpTopics : ~S.topics[x].exists}}
+      chan == {[a |-> "Sub", s |-> s, t |-> t, mode |-> m, chan |-> TRUE, bg |-> FALSE] : s \in Sessions, t \in {x \in GrpTopics : S.topics[x].exists}, m \in {<<"-">>, <<"J","R">>, <<"J","R","W","P">>}}
+              \cup {[a |-> "Leave", s |-> s, t |-> t, unsub |-> b, chan |-> TRUE] : s \in Sessions, t \in {x \in GrpTopics : S.topics[x].exists}, b \in BOOLEAN}
+              \cup {[a |-> "Note", s |-> s, t |-> t, what |-> w, seq |-> n, chan |-> TRUE] : s \in Sessions, t \in {x \in GrpTopics : S.topics[x].exists}, w \in {"read", "recv"}, n \in 1..MaxSeq}
+              \cup {[a |-> "Get", s |-> s, t |-> t, what |-> "data", since |-> 0, before |-> 0, limit |-> 0, chan |-> TRUE] : s \in Sessions, t \in {x \in GrpTopics : S.topics[x].exists}}
       live == {t \in GrpTopics : S.topics[t].exists}
       \* p2p topics and on-behalf-of requests are not tracked by the model: their requests are drawn blindly
       pt == Topics \ GrpTopics
@@ -77,6 +81,7 @@ Acts(S) ==
      \cup (IF "DelSub" \in Kinds THEN delsub ELSE {}) \cup (IF "Pub" \in Kinds THEN pub ELSE {})
      \cup (IF "Note" \in Kinds THEN note ELSE {})
      \cup (IF "P2P" \in Kinds THEN p2p ELSE {}) \cup (IF "Obo" \in Kinds THEN obo ELSE {}) \cup (IF "Special" \in Kinds THEN special ELSE {})
+     \cup (IF "Chan" \in Kinds THEN {x \in chan : x.a = "Sub" \/ x.t \in M(S.sess[x.s].subs)} ELSE {})
      \* requests that need attachment are drawn for attached sessions (plus one detached representative: the refusal path)
      \cup (IF "DelMsg" \in Kinds THEN {x \in delmsg : x.t \in M(S.sess[x.s].subs) \/ (x.s = SessOrder[Len(SessOrder)] /\ x.ranges = << <<1, 0>> >>)} ELSE {})
      \cup (IF "GetData" \in Kinds THEN {x \in getdata : x.t \in M(S.sess[x.s].subs) \/ (x.s = SessOrder[Len(SessOrder)] /\ x.since = 0 /\ x.before = 0 /\ x.limit = 0)} ELSE {})
@@ -87,7 +92,7 @@ ObsOf(S, a, r) ==
   LET isPub == a.a = "Pub" /\ r.out.code = 202 IN
   [code |-> r.out.code,
    nack |-> IF a.a \in {"Note", "Unload", "Reload"} THEN 0 ELSE 1,
-   data |-> IF isPub THEN {[s |-> x, seq |-> r.out.seq, from |-> SessUser[a.s], content |-> a.c, topic |-> a.t] : x \in r.out.dataTo} ELSE {},
+   data |-> IF isPub THEN {[s |-> x, seq |-> r.out.seq, from |-> SessUser[a.s], content |-> a.c, topic |-> a.t, aschan |-> AttChan(S.cache[a.t], x)] : x \in r.out.dataTo} ELSE {},
    ndata |-> [x \in Sessions |-> IF isPub /\ x \in r.out.dataTo THEN 1 ELSE 0],
    push |-> IF isPub THEN {r.out.pushTo} ELSE {},
    ackSeq |-> IF isPub THEN r.out.seq ELSE 0,
@@ -95,13 +100,15 @@ ObsOf(S, a, r) ==
    delmeta |-> {},
    afterCrash |-> FALSE,
    acs |-> {},
-   sysPre |-> 0, sysPost |-> 0,
+   sysPre |-> 0, sysPost |-> 0, info |-> {}, infoPredicted |-> FALSE,
+   pushChan |-> IF isPub THEN {[channel |-> IF S.cache[a.t].ischan THEN a.t ELSE "", ischn |-> S.cache[a.t].ischan]} ELSE {},
    nested |-> [fired |-> FALSE, code |-> 0, act |-> [a |-> "none"], method |-> ""]]
 
 \* simulation: first draw the KIND of request uniformly among the kinds that have an enabled instance, then the instance
 \* (otherwise kinds with large argument alphabets crowd out publishes and subscriptions)
 KindOf(a) == IF a.a = "Get" THEN "Get" \o a.what
              ELSE IF "obo" \in DOMAIN a THEN "obo" \o a.a
+             ELSE IF "chan" \in DOMAIN a /\ a.chan /\ a.a # "NewGrp" THEN "chan" \o a.a
              ELSE IF "t" \in DOMAIN a /\ a.t \notin Topics THEN "special" \o a.a
              ELSE IF "t" \in DOMAIN a /\ a.t \notin GrpTopics THEN "p2p" \o a.a ELSE a.a
 RandomAct(S) ==
